@@ -5,7 +5,8 @@
 From V.lib Require Import Base.
 From V.c13 Require Import C13Spec C13Model.
 From V.c15 Require Import C15Model C15Spec C15AvcConfModel C15AvcConfSpec C15HevcModel C15HevcSpec
-  C15HevcConfModel C15HevcConfSpec C15InitModel C15InitSpec C15InitProofs C15Examples C15HevcConfExamples.
+  C15HevcConfModel C15HevcConfSpec C15InitModel C15InitSpec C15InitProofs C15Examples C15HevcConfExamples
+  C15SliceMapsProofs.
 From V.c16 Require Import C16ConfRecModel.
 
 (* strict = "hvc1" (parameter sets required and flagged complete), otherwise "hev1" *)
@@ -47,3 +48,27 @@ Example C15_avc_init_hyp :
   /\ firstn 4 (expected_ainit ex_sps [nalu_sps ex_sps] [nalu_pps ex_pps] true)
      = [125435904; 70778880; 1914; 1080]%Z.
 Proof. vm_compute. repeat split; reflexivity. Qed.
+
+(* ---- the slice-header parsers see the parse history only through the contents of the maps they are
+   handed: PPS parsed earlier against another SPS map, parameter sets replaced or deleted in between,
+   several ids alive - nothing of that matters beyond what spsMap / ppsMap hold AT THE CALL.  (In the
+   models a parsed PPS is a plain record with no reference to an SPS and the parsers take exactly the
+   two maps; C15_avc_slice / C15_hevc_slice are stated for arbitrary maps.)  The correspondence replays
+   such histories on the real API. *)
+Theorem C15_avc_slice_maps_only : forall sm sm' pm pm' nalu,
+  (forall id, pm id = pm' id) -> (forall id, sm id = sm' id) ->
+  parse_slice_br sm pm nalu = parse_slice_br sm' pm' nalu
+  /\ parse_slice_er sm pm nalu = parse_slice_er sm' pm' nalu.
+Proof. exact (fun sm sm' pm pm' nalu Hp Hs =>
+                conj (avc_slice_br_maps_only sm sm' pm pm' nalu Hp Hs)
+                     (avc_slice_er_maps_only sm sm' pm pm' nalu Hp Hs)). Qed.
+Print Assumptions C15_avc_slice_maps_only.
+
+Theorem C15_hevc_slice_maps_only : forall sm sm' pm pm' nalu,
+  (forall id, pm id = pm' id) -> (forall id, sm id = sm' id) ->
+  hparse_slice_br sm pm nalu = hparse_slice_br sm' pm' nalu
+  /\ hparse_slice_er sm pm nalu = hparse_slice_er sm' pm' nalu.
+Proof. exact (fun sm sm' pm pm' nalu Hp Hs =>
+                conj (hevc_slice_br_maps_only sm sm' pm pm' nalu Hp Hs)
+                     (hevc_slice_er_maps_only sm sm' pm pm' nalu Hp Hs)). Qed.
+Print Assumptions C15_hevc_slice_maps_only.
